@@ -754,6 +754,11 @@ func walk(r *simkit.Run, prop string) {
 			checkExports(ctx, r, w, dir, step, reached)
 		case "C17":
 			checkReverse(ctx, r, w, obs, plan, changes, beforeCat, afterCat, cur, step, indent)
+			// A differ never proposes a rename; a user (or a diff hook) does. Such a hand-written change is
+			// planned, executed and reversed on the state just reached, which it leaves as it found it.
+			if !r.Failed() && t.Chance("hand-written-rename", 1, 5) {
+				checkRename(ctx, r, w, obs, step, indent)
+			}
 		}
 	}
 }
@@ -1270,6 +1275,87 @@ func checkReverse(ctx context.Context, r *simkit.Run, w *world, obs *sql.DB, pla
 		if _, err := w.db.ExecContext(ctx, c.Cmd, c.Args...); err != nil {
 			r.Fail(prop, "down", "up-after-down-fails", "step %d: re-applying the plan after down fails: %v\nstatement: %s", step, err, c.Cmd)
 			return
+		}
+	}
+}
+
+// checkRename plans RENAME TABLE or RENAME COLUMN for a table of the live database (a change list
+// written by hand), runs it, and hands the plan to checkReverse; afterwards the rename is taken back,
+// so that the walk goes on from the state its model describes.
+func checkRename(ctx context.Context, r *simkit.Run, w *world, obs *sql.DB, step int, indent bool) {
+	t := r.T
+	drv, err := sqlite.Open(w.db)
+	if err != nil {
+		simkit.Harnessf("sqlite.Open: %v", err)
+	}
+	start, next := inspectRealm(ctx, drv), inspectRealm(ctx, drv)
+	if start == nil || next == nil || len(start.Schemas) != 1 || len(start.Schemas[0].Tables) == 0 {
+		return
+	}
+	ti := t.Draw("rename-table", len(start.Schemas[0].Tables))
+	from, to := start.Schemas[0].Tables[ti], next.Schemas[0].Tables[ti]
+	var changes []schema.Change
+	what := ""
+	if t.Chance("rename-a-column", 1, 2) {
+		var cand []int
+		for i, c := range from.Columns {
+			gen := false
+			for _, a := range c.Attrs {
+				if _, ok := a.(*schema.GeneratedExpr); ok {
+					gen = true
+				}
+			}
+			if !gen {
+				cand = append(cand, i)
+			}
+		}
+		if len(cand) == 0 {
+			return
+		}
+		ci := cand[t.Draw("rename-column", len(cand))]
+		to.Columns[ci].Name += "_rn"
+		changes = []schema.Change{&schema.ModifyTable{T: to, Changes: []schema.Change{&schema.RenameColumn{From: from.Columns[ci], To: to.Columns[ci]}}}}
+		what = "column " + from.Name + "." + from.Columns[ci].Name
+	} else {
+		to.Name += "_rn"
+		changes = []schema.Change{&schema.RenameTable{From: from, To: to}}
+		what = "table " + from.Name
+	}
+	plan, err := drv.PlanChanges(ctx, "rename", changes, planOpts(indent)...)
+	if err != nil {
+		r.Probe("hand-written-rename-not-planned")
+		return
+	}
+	beforeCat, err := ReadCatalog(obs)
+	if err != nil {
+		simkit.Harnessf("catalog: %v", err)
+	}
+	for i, c := range plan.Changes {
+		if _, err := w.db.ExecContext(ctx, c.Cmd, c.Args...); err != nil {
+			if i > 0 {
+				simkit.Harnessf("hand-written rename failed half way: %v (%s)", err, c.Cmd)
+			}
+			r.Probe("hand-written-rename-refused-by-the-engine")
+			return
+		}
+	}
+	r.Probe("hand-written-rename/" + strings.Fields(what)[0])
+	r.Logf("step %d: hand-written rename of %s: %s", step, what, strings.TrimSpace(planText(plan)))
+	r.Sample("step %d: a hand-written change renames %s: plan %s", step, what, strings.TrimSpace(planText(plan)))
+	checkReverse(ctx, r, w, obs, plan, changes, beforeCat, nil, start, step, indent)
+	if r.Failed() || !plan.Reversible {
+		if !plan.Reversible && !r.Failed() {
+			simkit.Harnessf("a rename plan is not reversible: %s", planText(plan))
+		}
+		return
+	}
+	// checkReverse leaves the plan applied: take the rename back.
+	for i := len(plan.Changes) - 1; i >= 0; i-- {
+		st, _ := plan.Changes[i].ReverseStmts()
+		for _, s := range st {
+			if _, err := w.db.ExecContext(ctx, s); err != nil {
+				simkit.Harnessf("taking the rename back: %v (%s)", err, s)
+			}
 		}
 	}
 }
